@@ -63,13 +63,14 @@ def lemma(name, **opts):
     return deco
 
 
-def spec(fn=None, recursive=False, reads=(), returns='val', unfold=1, kind=None, facts=None):
+def spec(fn=None, recursive=False, reads=(), returns='val', unfold=1, kind=None, facts=None, opaque=False):
     """Mark a SpecPy function.  ``recursive`` functions become uninterpreted
     symbols (of result sort ``returns``: 'val' | 'bool' | 'outcome') unfolded
     ``unfold`` level(s) deep at the terms that occur."""
     def deco(f):
         f._spec = True
-        f._recursive = recursive
+        f._recursive = recursive or opaque
+        f._opaque = opaque          # never unfolded symbolically (natively: the reference implementation)
         f._reads = tuple(reads)
         f._returns = returns
         f._unfold = unfold
